@@ -17,6 +17,7 @@ import (
 	"math/rand/v2"
 	"strings"
 	"time"
+	"verif/harness/props/chains"
 
 	"github.com/notaryproject/notation-core-go/signature"
 
@@ -587,6 +588,18 @@ func rawGeneralNames(rng *rand.Rand) []byte {
 }
 
 func genHostileCert(rng *rand.Rand, idx int) Input {
+	if idx%4 == 3 {
+		// a chain from the catalogue of certificate-profile deviations (C03/C14)
+		ders, d := chains.RandomChain(rng)
+		in := Input{Kind: "chain", Desc: "catalogue-chain " + d, Chain: ders, WithST: rng.IntN(2) == 0, Bodies: map[string][]byte{}}
+		if len(ders) > 0 && rng.IntN(6) == 0 {
+			i := rng.IntN(len(in.Chain))
+			var hd string
+			in.Chain[i], hd = havoc(rng, in.Chain[i], nil, 1+rng.IntN(2))
+			in.Desc += " + der-havoc(cert " + fmt.Sprint(i) + ") " + hd
+		}
+		return in
+	}
 	n := 2 + rng.IntN(3)
 	fam := fmt.Sprintf("x%d", idx)
 	specs := make([]*pki.Cert, n)
